@@ -496,19 +496,22 @@ def judgeDerived (d : Derived F) : List String :=
    | none => if d.built then ["datainfo"] else []) ++
   (if d.probes.all (fun p => outcomeEq p.original p.derived) then [] else ["behaviour"])
 
-/-- a tree outside the quantifier (some scaled limit is not the grid value of its grid index): the description holds
-grid indices, so it cannot say where such a limit is, and the statement promises nothing about the behaviour of the
-derived type.  What is still judged: the derived type exists and its description is the identical datainfo — the
-description is a fixed point of the round trip for every tree (`rebuild_snaps`, `copy_snaps`). -/
+/-- a tree whose description cannot be made or cannot be rebuilt (the grid value of a scaled limit is not a finite
+number: `export_datatype` raises `OverflowError` or the constructor refuses the limit): nothing is promised about
+the behaviour of a derived type.  What is still judged: IF a derived type exists its description is the identical
+datainfo. -/
 def judgeDescribed (d : Derived F) : List String :=
   (if d.built then [] else ["built"]) ++
   (match d.datainfo' with
    | some j => if jsonEq d.datainfo j then [] else ["datainfo"]
    | none => if d.built then ["datainfo"] else [])
 
-/-- the monitor of the rebuild / copy streams: the tree decides (in Lean) which clauses apply -/
+/-- the monitor of the rebuild / copy streams: the tree decides (in Lean) which clauses apply.  Every tree whose scaled
+limits have finite grid values - on the grid (the quantifier of the property) or NOT - is held to all clauses of
+`judgeDerived`, the behaviour clause included: the repaired `ScaledInteger.validate` reads its limits through their grid
+values only, so the round trip through the description changes no behaviour (`rebuild_snaps`, `copy_equiv_snaps`). -/
 def judgeRebuilt (t : DInfo F) (d : Derived F) : List String :=
-  if t.exportableB then judgeDerived d else judgeDescribed d
+  if (DInfo.snapLimits t).isSome then judgeDerived d else judgeDescribed d
 
 /-- what the harness observed of a rebuilt / copied command: it exists, the datainfo of both, and for the argument and
 the result of the derived command (`none` = it has none) probes through the original's and the derived one's;
@@ -522,10 +525,11 @@ structure CmdDerived (F : Type) where
   shared : List String
 
 /-- "an equivalent type" for a command: it exists, has the identical datainfo, an argument / a result exactly where the
-original has one, and (for trees in the quantifier) argument and result accept and reject the same values with equal
-results; a copy shares no mutable object -/
+original has one, and (for trees whose scaled limits have finite grid values, on the grid or not) argument and result
+accept and reject the same values with equal results; a copy shares no mutable object -/
 def judgeCmdDerived (c : CmdInfo F) (d : CmdDerived F) : List String :=
-  let inQuantifier := (c.argument.map DInfo.exportableB).getD true && (c.result.map DInfo.exportableB).getD true
+  let inQuantifier := (c.argument.map (fun t => (DInfo.snapLimits t).isSome)).getD true &&
+    (c.result.map (fun t => (DInfo.snapLimits t).isSome)).getD true
   let same (ps : Option (List (Probe F))) : Bool := (ps.getD []).all (fun p => outcomeEq p.original p.derived)
   (if d.built then [] else ["built"]) ++
   (match d.datainfo' with
